@@ -64,6 +64,26 @@ CHECKS = {
   text="Theorems (CmProps/C17.lean) over an effects model of the API: silent_default, silent_invalid, result_indep / result_plain (the visualisers run after the result tuple is fixed), writes_documented, write_only_if_asked, preview_args_hex (the preview only ever receives #rrggbb strings when the result can be re-read, which C06 gives). Tie: every case is run plain and with show / save_report / both inside a private directory with stdout/stderr captured at file-descriptor level; results compared, files listed.",
   note=TB + "PARTIAL: rich's rendering of hex colours is trusted (exercised on every case, not modelled).",
   tech="Lean 4 proof over an effects model + observed effects", ref="6 C17"),
+ "C08": dict(
+  text="A Lean model of the rewriter (Cm.Cli, CmModel/Cli.lean) over an abstract stylesheet: custom-property collection, var() resolution with the tool's exact regular-expression semantics, pair extraction, three-way classification, declaration / custom-property rewriting, nesting in @media/@supports to any depth (mutual structural recursion on the nested tree), the shared :root/html declaration lists, counters, detail lists, and the serialisation failures that make a file be skipped. Theorems over it are being added (partition of rules into the three categories, attention rules unchanged). Tie: the harness parses each generated stylesheet with the real tinycss2, hands the tree to the model (with the model's own ColorPair/make_readable as pairEval) and compares counters, the needs-attention list, the report cards and the parsed _cm.css with the model's prediction; independently, an oracle that shares no code with the model judges the property on the tool's observable output alone (stdout, cards, written file, public API).",
+  note=TB + "PARTIAL: tinycss2's tokeniser/parser/serialiser is a parameter (modelled, not verified); K1 (a shared custom property adjusted for several rules) and K2 (unserialisable vendor hack in an adjusted rule) are known findings.",
+  tech="Lean 4 model of the rewriter + differential correspondence + independent output oracle", ref="6 C08"),
+ "C09": dict(
+  text="Same model as C08 (the rewriter only ever replaces the value of a declaration: setDeclValue keeps length, names, flags). Tie / observation: byte snapshots of every input before and after each run, directory listings (only <name>_cm.css beside each processed input and cm_colors_report.html in the working directory), and a token-level comparison of input and output through tinycss2 on stylesheets full of carry-through material (@import/@charset/@font-face/@keyframes/@page/@namespace/@layer/unknown at-rules, strings and url() with braces/semicolons/comment markers, escapes, !important, vendor hacks, empty rules, non-ASCII), single-file and directory runs: every difference must be the value of the text-colour declaration of a rule reported as adjusted, or of a custom property in :root/html.",
+  note=TB + "PARTIAL: tinycss2 serialisation fidelity and the OS honouring open(..., 'r') are modelled, not verified; K2 is a known finding (no output at all for that file).",
+  tech="Lean 4 model of the rewriter + observed file-system effects and token-level diff", ref="6 C09"),
+ "C15": dict(
+  text="The state signature of the package (module-level bindings, global statements, stores and mutating calls on module-level names, mutable default arguments, cache decorators, class-level mutables, self.x assignments outside constructors) is regenerated from an ast scan of /repo/src on every run into CmGen/StateSig.lean; theorem no_mutation_sites (decide) is re-checked against it, so a new cache / growing default / self.x assignment breaks a proof obligation. Over an abstract state machine: frame (a probe after any history = in a fresh state), outputs at any batch position, interleave (any interleaving of per-thread sequences), repeat_same; make_readable is read-only on the pair in the model. Dynamic backing: digests of every cm_colors module's globals around random histories, probe vs fresh interpreter (different PYTHONHASHSEED), deep comparison of a reused ColorPair, 8 threads vs sequential.",
+  note=TB + "PARTIAL: the scan's soundness is trusted (backed by the dynamic digests); CPython thread switching inside an operation and rich's console state are not modelled - the schedule clause rests on the observed thread run.",
+  tech="translator-regenerated state signature + Lean 4 proof (frame/interleaving) + history / fresh-process / thread runs", ref="6 C15"),
+ "C18": dict(
+  text="Same rewriter model; the batch is the model's processFile folded over the files with shared counters and per-file custom-property tables (prePass is a function of the file's own nodes). Tie: generated directory trees (nested folders, hidden folder, multi-dot names, stale *_cm.css, non-.css files, a custom property defined in one file and used in another) with every fault kind placed at random (non-UTF-8 bytes, a directory or dangling link named *.css, unserialisable CSS, empty file); each tree is run twice in a row and every good file alone: outputs byte-compared, stderr lines and exit status checked, discovery set checked, and the run compared with the model fed the same files in the traversal order the tool used.",
+  note=TB + "PARTIAL: the OS's behaviour on unreadable files is observed, not modelled; traversal order is taken from Path.rglob.",
+  tech="Lean 4 model of the rewriter + fault enumeration over directory trees + differential correspondence", ref="6 C18"),
+ "C19": dict(
+  text="The report templates and the per-slot substitution of the five markup metacharacters are extracted from the behaviour of both generators on every run (sentinel rendering) into CmGen/Templates.lean. Theorems (CmProps/C19.lean): escape_no_meta, unescape_escape (displays verbatim), the structure theorem render_structure (if every slot sits in element text or a double-quoted attribute value then for ANY slot strings the markup skeleton of the rendered document is the template's own) and, re-checked by decide +kernel on the regenerated data, templates_ok_cli/api and slots_escaped_cli/api, hence cli_report_structure / api_report_structure. Tie: both generators rendered with random strings over a metacharacter-rich alphabet in one or all slots; html.parser's element/attribute structure equals the benign one and the text is displayed verbatim; the model's skeleton is computed on the same documents; end-to-end CLI and save_report runs.",
+  note=TB + "the coarse tokenizer model is validated against html.parser on every rendered document; per-character, context-free escaping is checked by the random strings.",
+  tech="translator-extracted templates + Lean 4 proof (structure theorem) + differential validation against html.parser", ref="6 C19"),
 }
 
 def main():
